@@ -368,7 +368,9 @@ func c15r3(c *an.Ctx) {
 			Branch: func(st string, br *ssa.If, idx int) (string, bool) {
 				// `local == nil` for a list looked up in the map
 				if x, trueNonNil, ok := nilTestOf(br.Cond); ok {
-					if _, isLookup := x.(*ssa.Lookup); isLookup {
+					// (the list of the entry being unlinked, looked up by that entry's own key; a test of the list
+					// a new entry is about to join says nothing about the entries that are removed)
+					if lk, isLookup := x.(*ssa.Lookup); isLookup && isLoadOfField(an.Unwrap(lk.Index), A(c).field("drpcpool", "entry", "key")) {
 						isNil := (idx == 0) != trueNonNil
 						if isNil && st == "" {
 							return "nolocal", true
@@ -495,12 +497,19 @@ func c15r4(c *an.Ctx) {
 	take := c.Fn("drpcpool", "(*Pool).Take")
 	res := ownerFlow(take)
 	nTrue := 0
-	for _, ret := range an.Returns(take) {
-		if !res.Reachable(ret.Block()) {
+	// per way of returning (the returns of an inlined helper are merged into one instruction: a way is then
+	// judged where it leaves from)
+	for _, rc := range an.ReturnCases(take) {
+		ret := rc.Ret
+		if !res.Reachable(ret.Block()) || len(rc.Vals) < 2 {
 			continue
 		}
 		isTrue := false
-		for _, v := range returnedValues(ret, 1) {
+		vals := []ssa.Value{rc.Vals[1]}
+		if rc.At == nil || rc.At == ret.Block() {
+			vals = returnedValues(ret, 1)
+		}
+		for _, v := range vals {
 			if cst, ok := v.(*ssa.Const); ok && cst.Value != nil && cst.Value.String() == "true" {
 				isTrue = true
 			}
@@ -509,7 +518,16 @@ func c15r4(c *an.Ctx) {
 			continue
 		}
 		nTrue++
-		for _, st := range res.Before(ret) {
+		states := res.Before(ret)
+		if rc.At != nil && rc.At != ret.Block() && len(rc.At.Instrs) > 0 {
+			last := rc.At.Instrs[len(rc.At.Instrs)-1]
+			if sts := res.After(last); len(sts) > 0 {
+				states = sts
+			} else if sts := res.Before(last); len(sts) > 0 {
+				states = sts // the block ends in a jump: what holds before it holds on the edge
+			}
+		}
+		for _, st := range states {
 			for _, need := range []struct{ tag, why string }{
 				{"unblocked", "a connection still blocked by a cancelled call can be handed out"},
 				{"unlinked", "a connection is handed out while still cached: a second Take can return it again"},
